@@ -34,7 +34,7 @@ def field_desc(draw, lo=1, hi=6, off=9, min_size=1):
     shape = draw(gen.shape2(lo, hi))
     if shape[0] * shape[1] < min_size:
         shape = (shape[0] + 1, shape[1])
-    data = draw(gen.complex_array(shape, maxmag=50.0, dense_prob=0.7))
+    data = draw(gen.complex_array(shape, maxmag=50.0, dense_prob=0.7)) * draw(gen.scales())
     return {"data": data, "offset": [draw(st.integers(-off, off)), draw(st.integers(-off, off))]}
 
 
